@@ -186,11 +186,17 @@ class BaseFileWriterSession(BaseWriterSession):
         '''Get the appropriate filename from the request.'''
         path = self._path_namer.get_filename(request.url_info)
 
+        return self._avoid_name_conflicts(path)
+
+    @classmethod
+    def _avoid_name_conflicts(cls, path: str) -> str:
+        '''Return a path whose directory parts are not files and which
+        itself is not a directory.'''
+        dir_name, name = os.path.split(path)
+        path = os.path.join(anti_clobber_dir_path(dir_name), name)
+
         if os.path.isdir(path):
             path += '.f'
-        else:
-            dir_name, name = os.path.split(path)
-            path = os.path.join(anti_clobber_dir_path(dir_name), name)
 
         return path
 
@@ -208,6 +214,10 @@ class BaseFileWriterSession(BaseWriterSession):
     def process_response(self, response: BaseResponse):
         if not self._filename:
             return
+
+        # Other sessions may have created files and directories since the
+        # filename was computed for the request.
+        self._filename = self._avoid_name_conflicts(self._filename)
 
         if response.request.url_info.scheme == 'ftp':
             response = cast(FTPResponse, response)
